@@ -15,7 +15,8 @@ mkdir -p "$S/prof" "$V/reach"
 trap 'rm -rf "$S"' EXIT
 BIN_DIR="$(dirname "$(rustc +nightly --print target-libdir)")/bin"
 export CARGO_NET_OFFLINE=true
-CARGO_TARGET_DIR=$T RUSTFLAGS="--cfg flipdot_verif --check-cfg cfg(flipdot_verif) -C instrument-coverage" \
+# (build scripts and proc macros are instrumented too and write a profile when they run: keep those out of /repo)
+LLVM_PROFILE_FILE="$S/build-%p.profraw" CARGO_TARGET_DIR=$T RUSTFLAGS="--cfg flipdot_verif --check-cfg cfg(flipdot_verif) -C instrument-coverage" \
   cargo +nightly build --release --offline --manifest-path "$V/sim/Cargo.toml" >/dev/null 2>&1
 for p in C02 C08 C09 C10 C11 C12 C13 C14 C15 C16 C17 C18 C20; do
   r=$RUNS; [ "$p" = C02 ] && r=$((RUNS / 500 + 4))
